@@ -23,7 +23,8 @@ META = {
                   "against a frame ledger and against the extracted model; returned values and exception classes are compared with what each request's own handler produced; "
                   "the requester-side histories (including unsolicited and duplicate responses, failed sends) run on a real Connection.",
     "level_note": "Trusted: Coq kernel, pygen, extraction+driver, harness (in-memory streams, frame tap, reference codec). The outcome of a handler and whether a value encodes are "
-                  "oracles in the theorems (the latter is C04's dump). A message that cannot be decoded at all has no number to answer. Multi-threaded serving is C12/C13.",
+                  "oracles in the theorems (the latter is C04's dump). A message that cannot be decoded at all has no number to answer. The replacement for an exception record that cannot be encoded is assumed encodable (an exception whose repr itself raises an unencodable error defeats it: not generated). "
+                  "A send interrupted by a BaseException that is not an Exception (KeyboardInterrupt inside the write) leaves the callback registered: outside ERequest's two outcomes. Multi-threaded serving is C12/C13.",
     "technique": "Coq proof by induction over request streams with universally quantified outcome oracles; generated guarded-region facts select theorem vs refutation; ledger-based differential run",
     "gen": ["dispatch"],
     "shapes": ["dispatch.*", "protocol.Connection._dispatch", "protocol.Connection._seq_request_callback", "protocol.Connection._async_request", "protocol.Connection._box_exc",
